@@ -2,6 +2,7 @@
 From Coq Require Import ZArith Bool.
 Local Open Scope Z_scope.
 Definition b2z (b : bool) : Z := if b then 1 else 0.
+Definition wrapi32 (z : Z) : Z := (z + 2147483648) mod 4294967296 - 2147483648.
 (* call sites of these functions in src/munged/*.c whose pointer arguments were checked to be addresses of objects *)
 Definition clock_call_sites : Z := 7.
 Definition src_clock_get_timespec (gt_rc : Z) (clk : Z * Z) (tsp : Z * Z) (v_msecs : Z) : Z * (Z * Z) :=
